@@ -8,6 +8,7 @@ import FlacModel.Props.C02
 import FlacModel.Props.C03
 import FlacModel.Proofs.Codec
 import FlacModel.Proofs.CrcEq
+import FlacModel.Model.FrameWf
 
 namespace Flac.C02
 open Flac Gen
@@ -76,5 +77,12 @@ theorem spec_accepts_serialized (si : Option SInfo) (f : Frame) (w : FrameWf si 
     unfold Spec.frameSamplesFit Spec.frameSamples Spec.frameSubSamples at hfit ⊢; exact hfit
   simp only [e8, Bool.false_eq_true, if_false, ewf, Bool.not_true, e16, efit]
   exact ⟨_, rfl, rfl, rfl, rfl, rfl⟩
+
+/-- non-vacuity: the one-sample mono frame `FF F8 69 08 00 00 1D 00 00 00 A0 27` parses to a frame that satisfies every hypothesis
+    of `spec_accepts_serialized` (executable forms), and the specification decoder indeed accepts those bytes -/
+example : (match parseFrame decLayout true none [255, 248, 105, 8, 0, 0, 29, 0, 0, 0, 160, 39] with
+    | .ok pr => frameWfB none pr.frame && Spec.frameWf pr.frame && Spec.frameSamplesFit pr.frame
+        && (match Spec.specDecode none [255, 248, 105, 8, 0, 0, 29, 0, 0, 0, 160, 39] with | .ok d => d.channels == [[0]] | .error _ => false)
+    | .error _ => false) = true := by decide +kernel
 
 end Flac.C02
